@@ -99,10 +99,12 @@ class StreamItemQueue:
         try:
             await self._produce(self)
         except Exception as error:
-            # settle the pending item futures and clean up the source
-            # before delivering the failure
+            # let the items before the failure settle, so that they are still
+            # delivered in order before the failure, then clean up the source
+            pending = [f for f in self._pending_futures if not f.done()]
+            if pending:
+                await gather(*pending, return_exceptions=True)
             self._aborted = True
-            await self._settle_pending()
             on_abort = self._on_abort
             if on_abort is not None:
                 cleanup = on_abort(error)
